@@ -62,6 +62,14 @@ func (c *Ctx) Add(key string, n int) {
 	c.Coverage[key] = v + n
 }
 
+// SetExhaustive ANDs into coverage.exhaustive.
+func (c *Ctx) SetExhaustive(v bool) {
+	if old, ok := c.Coverage["exhaustive"].(bool); ok {
+		v = v && old
+	}
+	c.Coverage["exhaustive"] = v
+}
+
 func (c *Ctx) Get(key string) int { v, _ := c.Coverage[key].(int); return v }
 
 // Sample appends to coverage.samples (bounded).
